@@ -12,6 +12,7 @@ import (
 	"path/filepath"
 	"strconv"
 	"strings"
+	"sync"
 	"time"
 )
 
@@ -20,7 +21,10 @@ import (
 // server that serves a generated site, seeded schedule perturbation at the hook points.  The hook-event
 // trace is turned into the Coq case that Pipe/PipeHarness.v replays through PipeLts.step.
 //
-// Input: "site=<n> w=<W> mca=<M> sched=<s> seeds=<k> mr=<max-redirect> retry=<r> [mode=adversarial]"
+// Input: "site=<n> w=<W> mca=<M> sched=<s> seeds=<k> mr=<max-redirect> retry=<r> [mode=adversarial] [badrows=<b>]"
+// badrows=<b>: b more rows are put into the queue, at positions drawn from the site seed, whose text is not a URL
+// (url.ParseRequestURI rejects it): the queue's own consumer finishes such a row at once, it never enters the reactor.
+// The crawl is then kept running until the queue has been seen holding a report for every row.
 
 func repoRoot() string {
 	if r := os.Getenv("VERIF_REPO"); r != "" {
@@ -309,7 +313,8 @@ func traceToCase(spec *PipeSpec, res *PipeResult, evs []pevent, status string) (
 	dropped := map[string]bool{} // seeds whose trace was cut inside a pass
 	complete := status == "" && res != nil && res.StopReturned && !res.TimedOut
 	var out []string
-	passes, maxNodes, feedbacks := 0, 0, 0
+	passes, maxNodes, feedbacks, reports := 0, 0, 0, 0
+	reportedN, lateNoted := map[string]int{}, map[string]bool{}
 	insert := func(id string) {
 		if _, ok := sidOf[id]; ok && ids[id] == nil {
 			out = append(out, fmt.Sprintf("GIns %d %d %d", sidOf[id], in.url(rowURL[id]), rowHops[id]))
@@ -325,6 +330,10 @@ func traceToCase(spec *PipeSpec, res *PipeResult, evs []pevent, status string) (
 		}
 		if e.kind == "pre.in" {
 			insert(id)
+		}
+		if _, isRow := sidOf[id]; isRow && reportedN[id] > 0 && !lateNoted[id] && e.kind != "fin.notified" && (hookNo[e.kind] > 0 || e.kind == "lq.insert" || e.kind == "pre.done") {
+			lateNoted[id] = true
+			pipeNote(fmt.Sprintf("pipe case: row %s (%q) is in the pipeline (%s) after the queue was told it is finished", id, rowURL[id], e.kind))
 		}
 		switch e.kind {
 		case "lq.inserted":
@@ -393,6 +402,20 @@ func traceToCase(spec *PipeSpec, res *PipeResult, evs []pevent, status string) (
 					out = append(out, fmt.Sprintf("GDel %d", sid))
 				}
 			}
+		case "lq.insert": // the queue's consumer is about to hand the row to the reactor
+			if sid, ok := sidOf[id]; ok {
+				out = append(out, fmt.Sprintf("GOffer %d", sid))
+			}
+		case "lq.report": // the queue holds a finish report for each of these rows
+			for _, x := range e.fields {
+				if sid, ok := sidOf[x]; ok {
+					out = append(out, fmt.Sprintf("GRep %d %d %d", sid, in.url(rowURL[x]), rowHops[x]))
+					reports++
+					if reportedN[x]++; reportedN[x] == 2 {
+						pipeNote(fmt.Sprintf("pipe case: row %s (%q) was reported to the queue as finished a second time", x, rowURL[x]))
+					}
+				}
+			}
 		case "fin.captured":
 			if sid, ok := sidOf[id]; ok && len(e.fields) >= 3 {
 				out = append(out, fmt.Sprintf("GCapt %d %s %s", sid, e.fields[1], e.fields[2]))
@@ -453,9 +476,10 @@ func traceToCase(spec *PipeSpec, res *PipeResult, evs []pevent, status string) (
 			}
 		}
 	}
-	term := fmt.Sprintf("EC %d (Cfg %d false %s) %s %s %s %d %d %s %d", spec.Workers, spec.MaxRedirect, da, coqList(rowIDs), coqList(out), coqBool(complete), tableEnd, spec.MaxRetry, coqBool(wedged), hopViol)
+	term := fmt.Sprintf("EC %d (Cfg %d false %s) %s %s %s %d %d %s %d %s", spec.Workers, spec.MaxRedirect, da, coqList(rowIDs), coqList(out), coqBool(complete), tableEnd, spec.MaxRetry, coqBool(wedged), hopViol, coqBool(spec.ExpectReports > 0))
 	tags := []string{fmt.Sprintf("w:%d", spec.Workers), fmt.Sprintf("mca:%d", spec.MCA), fmt.Sprintf("seeds:%d", len(spec.LQRows)),
-		fmt.Sprintf("passes:%d", bucket(passes)), fmt.Sprintf("nodes:%d", bucket(maxNodes)), fmt.Sprintf("complete:%v", complete)}
+		fmt.Sprintf("passes:%d", bucket(passes)), fmt.Sprintf("nodes:%d", bucket(maxNodes)), fmt.Sprintf("complete:%v", complete),
+		fmt.Sprintf("badrows:%d", len(spec.LQRows)-spec.Expect), fmt.Sprintf("queue-reports-seen:%d", bucket(reports))}
 	if status != "" {
 		tags = append(tags, "child:"+strings.SplitN(status, " ", 2)[0])
 		note("pipechild " + status)
@@ -486,6 +510,7 @@ func pipeSpecFromInput(input string, dir string) *PipeSpec {
 			}
 		}
 	}
+	sp.Outage5xx, sp.StopBoundMs = atoi("outage", 0), atoi("stopbound", 0) // C03: host A is down for its first <outage> requests; Stop() has <stopbound> ms
 	if sp.MaxHops > 0 {
 		sp.IdleMs = 5800 // the queue's producer flushes its batch of outlinks after at most 5 s: quiescence must outlast it
 	}
@@ -498,12 +523,21 @@ func pipeSpecFromInput(input string, dir string) *PipeSpec {
 	n := atoi("seeds", 3)
 	for i := 0; i < n; i++ {
 		host := "{A}"
-		if (site+uint64(i))%3 == 0 {
+		if (site+uint64(i))%3 == 0 && atoi("onehost", 0) != 1 { // onehost=1: every row on host A (C03: URLs of one host queue up behind its token bucket)
 			host = "{B}"
 		}
 		sp.LQRows = append(sp.LQRows, LQRow{ID: fmt.Sprintf("row%d", i), Value: fmt.Sprintf("http://%s/s%d-%d.html", host, site%1000, i), Hops: 0})
 	}
 	sp.Expect = len(sp.LQRows)
+	if nb := atoi("badrows", 0); nb > 0 {
+		for j := 0; j < nb; j++ {
+			r := mix(site, fmt.Sprintf("badrow#%d", j))
+			row := LQRow{ID: fmt.Sprintf("bad%d", j), Value: badRowText(r.Intn(len(badRowShapes)), int(site%1000), j), Hops: 0}
+			at := r.Intn(len(sp.LQRows) + 1)
+			sp.LQRows = append(sp.LQRows[:at], append([]LQRow{row}, sp.LQRows[at:]...)...)
+		}
+		sp.ExpectReports = len(sp.LQRows) // Expect stays the number of rows the finisher will see
+	}
 	if v, ok := kv["stop"]; ok {
 		p := strings.SplitN(v, ":", 2)
 		k, _ := strconv.Atoi(p[1])
@@ -522,10 +556,33 @@ func pipeSpecFromInput(input string, dir string) *PipeSpec {
 	return sp
 }
 
+// texts that are not URLs for url.ParseRequestURI (= models.URL.Parse): the kinds of raw outlink text that reach the local queue
+// (its producer stores what the extractors found, unparsed), each made unique by the site and row number
+var badRowShapes = []string{
+	"http://[::1/x%d-%d",     // IPv6 literal without its closing bracket
+	"http://[bad%d-%d/page",  // the same, a host name in brackets
+	"http://{A}/%%zz%d-%d",   // invalid percent escape
+	"no-scheme-%d-%d",        // neither absolute nor rooted
+	"http://{A}:port%d-%d/x", // port that is not a number
+	"http://a b%d-%d/",       // space in the host
+	"http://{A}/\x01c%d-%d",  // control character
+}
+
+// cases run in parallel: the notes of this file's queue-side checks are serialised among themselves
+var pipeNoteMu sync.Mutex
+
+func pipeNote(s string) {
+	pipeNoteMu.Lock()
+	defer pipeNoteMu.Unlock()
+	note(s)
+}
+
+func badRowText(shape, site, j int) string { return fmt.Sprintf(badRowShapes[shape], site, j) }
+
 func execPipe(input string) Result {
 	dir, err := os.MkdirTemp("", "zv-pipe-")
 	if err != nil {
-		return Result{Term: "EC 0 (Cfg 0 false false) [] [] false 0 0 false 0", Tags: []string{"mktemp-failed"}}
+		return Result{Term: "EC 0 (Cfg 0 false false) [] [] false 0 0 false 0 false", Tags: []string{"mktemp-failed"}}
 	}
 	if os.Getenv("ZV_KEEP") == "" {
 		defer os.RemoveAll(dir)
@@ -561,6 +618,10 @@ func genPipe(r *Rng, i int, tier string) string {
 		// the second WARC client (--proxy): challenge pages the discard policy rejects, hang-ups and truncated bodies make its
 		// writer report on its error channel, which somebody has to drain or the seed never leaves the archiver
 		s += " proxy=1"
+	}
+	if r.Chance(25) {
+		// rows that are not URLs: the queue's own consumer reports them finished, the finisher never sees them
+		s += fmt.Sprintf(" badrows=%d", 1+r.Intn(2))
 	}
 	return s
 }
@@ -639,6 +700,9 @@ func init() {
 			}
 			if kv["sched"] != "0" {
 				out = append(out, strings.Replace(input, "sched="+kv["sched"], "sched=0", 1))
+			}
+			if n, _ := strconv.Atoi(kv["badrows"]); n > 1 {
+				out = append(out, strings.Replace(input, "badrows="+kv["badrows"], "badrows=1", 1))
 			}
 			return out
 		},
